@@ -25,6 +25,8 @@ limitations under the License.
 #include <photon/thread/thread-pool.h>
 
 
+#include <photon/common/verif-hooks.h>
+
 namespace photon{
 namespace fs {
 
@@ -245,6 +247,8 @@ ssize_t ICacheStore::do_refill_range(uint64_t refill_off, uint64_t refill_size, 
         }
 
         // buffer need async refill
+        VERIF_POINT(P_CACHE_REFILL);
+        VERIF_COV(C_CACHE_REFILL);
         IOVector refill_buf(buffer.iovec(), buffer.iovcnt());
         if ((open_flags_&O_WRITE_BACK) || !input) {
             ret = 0;
